@@ -704,9 +704,10 @@ func C07(c *vf.Ctx) {
 			{Small: true, Soft: true, Points: []string{"manager.newstream.beforeset", "conn.created"}, Threads: thr3},
 			{Small: true, Soft: true, GateU: true, Threads: []string{"c1", "c2", "c3", "c4"}},
 		},
-		scen:    []string{"queued-call-cancelled", "first-recv-flush-parked", "terminal-op-queued-behind-marshal"},
-		kinds:   []string{"start", "hstep", "relw", "relwerr", "deliver", "cancel", "point", "relu"},
-		weights: map[string]int{"invoke": 3, "newstream": 3, "op": 10, "hstep": 5, "relw": 8, "deliver": 6, "cancel": 3, "point": 3, "relwerr": 1, "relu": 3},
+		skipKnown: true, // stream id reuse (open finding): the model has no such behaviour
+		scen:      []string{"queued-call-cancelled", "first-recv-flush-parked", "terminal-op-queued-behind-marshal"},
+		kinds:     []string{"start", "hstep", "relw", "relwerr", "deliver", "cancel", "point", "relu"},
+		weights:   map[string]int{"invoke": 3, "newstream": 3, "op": 10, "hstep": 5, "relw": 8, "deliver": 6, "cancel": 3, "point": 3, "relwerr": 1, "relu": 3},
 		tail: func(w *sys.World, rng *rand.Rand, ts *tailState) {
 			if w.Cfg.GateU && rng.Intn(2) == 0 {
 				// directed: the application's SendError is inside the user's Error() method (after the state transition,
